@@ -124,6 +124,91 @@ fn judge_doc(kind: DocKind, name: &str, original: &Value, report: &mut Report) {
     }
 }
 
+/// Every variant of a document in which ONE non-empty array is emptied (a list which happens to be empty: no evolution
+/// records, no violations, no unassigned jobs, ...). The law for them: the library reads what it has written, twice the same;
+/// an empty list and an absent key say the same thing.
+fn emptied_array_variants(name: &str, doc: &Value) -> Vec<(String, Value)> {
+    fn paths(v: &Value, at: String, out: &mut Vec<String>) {
+        match v {
+            Value::Array(a) => {
+                if !a.is_empty() {
+                    out.push(at.clone());
+                }
+                for (i, x) in a.iter().enumerate() {
+                    paths(x, format!("{at}/{i}"), out);
+                }
+            }
+            Value::Object(o) => {
+                for (k, x) in o {
+                    paths(x, format!("{at}/{k}"), out);
+                }
+            }
+            _ => {}
+        }
+    }
+    let mut ps = vec![];
+    paths(doc, String::new(), &mut ps);
+    ps.into_iter()
+        .filter_map(|p| {
+            let mut d = doc.clone();
+            *d.pointer_mut(&p)? = json!([]);
+            Some((format!("{name}:emptied{p}"), d))
+        })
+        .collect()
+}
+
+fn strip_empty_arrays(v: &Value) -> Value {
+    match v {
+        Value::Object(o) => Value::Object(o.iter().filter(|(_, x)| !x.as_array().is_some_and(|a| a.is_empty())).map(|(k, x)| (k.clone(), strip_empty_arrays(x))).collect()),
+        Value::Array(a) => Value::Array(a.iter().map(strip_empty_arrays).collect()),
+        other => other.clone(),
+    }
+}
+
+/// Round trip of a document with an emptied list: if the format accepts it at all, it must read its own output back and
+/// write the same again; compared with the original up to "empty list == absent key".
+fn judge_doc_relaxed(kind: DocKind, name: &str, original: &Value, report: &mut Report) {
+    report.add_count("documents", 1);
+    report.add_count("documents_with_an_emptied_list", 1);
+    report.add_count("evaluations", 1);
+    let scen = json!({"part": "serde-relaxed", "kind": format!("{kind:?}"), "name": name, "document": original});
+    let text = original.to_string();
+    // does the format accept the document at all? (a list which may not be empty is a validation matter, not a round trip one)
+    let first = match kind {
+        DocKind::Solution => catch(|| deserialize_solution(BufReader::new(text.as_bytes())).map(|_| ()).map_err(|e| e.to_string())),
+        _ => return,
+    };
+    match first {
+        Ok(Ok(())) => {}
+        Ok(Err(_)) => {
+            report.add_count("documents_with_an_emptied_list_not_accepted", 1);
+            return;
+        }
+        Err(p) => {
+            report.violation(Violation::new(format!("serde:{kind:?}:panic@{}", panic_site(&p)), p, scen));
+            return;
+        }
+    }
+    match round_trip(kind, &text) {
+        Ok((s1, s2)) => {
+            let mut d = vec![];
+            diff(&s1, &s2, "$", &mut d);
+            if !d.is_empty() {
+                report.violation(Violation::new(format!("serde:{kind:?}:not-idempotent"), format!("{:?}", &d[..d.len().min(4)]), scen.clone()));
+            }
+            let mut d = vec![];
+            diff(&strip_empty_arrays(original), &strip_empty_arrays(&s1), "$", &mut d);
+            if !d.is_empty() {
+                report.violation(Violation::new(format!("serde:{kind:?}:document-changed:emptied-list"), format!("{:?}", &d[..d.len().min(4)]), scen));
+            }
+        }
+        Err(e) => {
+            let key = if e.starts_with("panic") { format!("serde:{kind:?}:panic@{}", panic_site(&e)) } else { format!("serde:{kind:?}:cannot-parse-own-format") };
+            report.violation(Violation::new(key, e, scen));
+        }
+    }
+}
+
 /// Feature catalogue: documents switching optional fields / enum variants / untagged alternatives on.
 fn catalogue() -> Vec<(String, Value)> {
     let base = |jobs: Value, shifts: Value, extra_fleet: Option<(&str, Value)>, plan_extra: Option<(&str, Value)>, objectives: Option<Value>| -> Value {
@@ -273,6 +358,9 @@ fn judge_init(family: &str, problem: &PProblem, cfg: &SolveCfg, report: &mut Rep
         Ok(Err(e)) => {
             // keyed by the message class
             let class: String = e.to_string().chars().filter(|c| !c.is_ascii_digit()).collect::<String>().split('\'').next().unwrap_or("").trim().to_string();
+            // "cannot match 'break'" is a recorded limitation for REQUIRED breaks only (family reqbreak): anywhere else it is
+            // named by its family, so that the recorded finding does not hide it
+            let class = if class == "cannot match" && family != "reqbreak" { format!("{class}:{family}") } else { class };
             report.violation(Violation::new(format!("init:read-error:{class}"), e.to_string(), scen));
         }
         Err(p) => report.violation(Violation::new(format!("init:panic@{}", panic_site(&p)), p, scen)),
@@ -453,6 +541,8 @@ fn slice(tier: Tier) -> Vec<(String, PProblem)> {
         let per = match (name, tier) {
             ("core", Tier::Quick) => 60,
             ("places", _) => usize::MAX,
+            // breaks with / without location and tag, reloads, resources, two shifts: every problem
+            ("cond", _) => usize::MAX,
             (_, Tier::Quick) => 10,
             // thorough: every problem of every family
             _ => usize::MAX,
@@ -515,6 +605,9 @@ pub fn run(ctx: &RunCtx) -> Report {
         judge_doc(DocKind::Problem, &name, &doc, &mut report);
     }
     for (name, doc) in solution_catalogue() {
+        for (vname, variant) in emptied_array_variants(&name, &doc) {
+            judge_doc_relaxed(DocKind::Solution, &vname, &variant, &mut report);
+        }
         judge_doc(DocKind::Solution, &name, &doc, &mut report);
     }
     judge_doc(DocKind::Matrix, "matrix-with-timestamp", &json!({"profile": "car", "timestamp": fmt_time(100.), "travelTimes": [0, 1, 1, 0], "distances": [0, 2, 2, 0], "errorCodes": [0, 1, 0, 0]}), &mut report);
